@@ -104,6 +104,8 @@ type v1run struct {
 	faultKind                     string
 	faultBad                      bool
 	sendsAfterBad                 int
+	pressure                      int
+	pressureOnly                  uint
 	sawErrBad                     bool
 }
 
@@ -227,10 +229,10 @@ func newV1(t *testing.T, cfg Config, gated bool) *v1run {
 func (r *v1run) topUp() {
 	for _, p := range r.cfg.Prios {
 		c, ok := r.reg[p]
-		if !ok || r.closedIn[c] || cap(r.ch[c]) == 0 {
+		if !ok || r.closedIn[c] || cap(r.ch[c]) == 0 || (r.pressure > 0 && r.pressureOnly != 0 && p != r.pressureOnly) {
 			continue
 		}
-		for len(r.ch[c]) < cap(r.ch[c]) {
+		for len(r.ch[c]) < cap(r.ch[c]) && (r.cfg.Saturated || r.nextItem[c] < r.cfg.Items[fmt.Sprint(c)]) {
 			r.nextItem[c]++
 			r.emit(obs{E: "W", C: uint(c), K: r.nextItem[c]})
 			r.ch[c] <- c*1000 + r.nextItem[c]
@@ -241,6 +243,12 @@ func (r *v1run) topUp() {
 
 func (r *v1run) next() (v1.VerifEvent, bool) {
 	if r.cfg.Saturated && !r.free.Load() {
+		r.topUp()
+	}
+	// "pressure" configurations: once a RemoveInput has returned, the remaining inputs are kept full for a while and nothing is
+	// released: whatever the discipline still has set aside for the removed priority must not be handed out a second time
+	if r.pressure > 0 && !r.free.Load() {
+		r.pressure--
 		r.topUp()
 	}
 	if r.atGate {
@@ -326,6 +334,17 @@ func (r *v1run) observe() {
 		}
 		if o.E == "RmvRet" {
 			delete(r.reg, o.P)
+			if r.cfg.Extra["pressure_after_remove"] == true {
+				r.pressure = 60
+				r.pressureOnly = 0 // every other run: only ONE of the remaining priorities gets the data, the others stay idle
+				if len(r.log)%2 == 0 {
+					for _, q := range r.cfg.Prios {
+						if _, ok := r.reg[q]; ok && (r.pressureOnly == 0 || len(r.log)%3 == 0) {
+							r.pressureOnly = q
+						}
+					}
+				}
+			}
 		}
 	}
 	if r.stopRet.Load() && !r.stopRetLogged {
@@ -443,11 +462,15 @@ func (r *v1run) envAction(rnd *rand.Rand) bool {
 	if len(r.out) > 0 && r.cfg.Extra["no_consumer"] != true { // no_consumer: nobody reads the output, the scheduler ends up blocked in send
 		acts = append(acts, func() { r.recv() }, func() { r.recv() })
 	}
-	if len(r.held) > 0 && !(r.stopReq && r.cfg.Extra["silent_after_stop"] == true) {
+	if len(r.held) > 0 && r.pressure == 0 && !(r.stopReq && r.cfg.Extra["silent_after_stop"] == true) {
 		acts = append(acts, func() { r.release(rnd.Intn(len(r.held))) })
 	}
 	if len(acts) == 0 {
 		return false
+	}
+	if r.cfg.Extra["eager_release"] == true && len(r.held) > 0 && r.pressure == 0 && rnd.Intn(4) != 0 {
+		r.release(rnd.Intn(len(r.held))) // handlers that finish quickly: most of the time whatever is held is released at once
+		return true
 	}
 	acts[rnd.Intn(len(acts))]()
 	return true
